@@ -32,8 +32,8 @@ def r1_scope_pairing(m, blocks):
     r.floor = 9
     scoping = cb.scoping_instances(ctx, blocks)
     scoping_ids = {id(i) for i in scoping}
-    if len(scoping) < 8:
-        r.error("only %d BlockBase.match instances have a scoping start class (expected >= 8)" % len(scoping))
+    if len(scoping) < 4:
+        r.error("only %d BlockBase.match instances have a scoping start class (the engine/table extraction lost them)" % len(scoping))
     engine_calls_enter = any((A.dotted(c.func) or "").endswith("SYMBOL_TABLES.enter_scope") for c in A.calls(ctx.engine.node))
     if not engine_calls_enter:
         r.error("BlockBase.match no longer calls SYMBOL_TABLES.enter_scope (anchor vanished)")
